@@ -302,9 +302,9 @@ bool Node::Stat(DiskInterface* disk_interface, string* err) {
 }
 
 void Node::UpdatePhonyMtime(TimeStamp mtime) {
-  if (!exists()) {
-    mtime_ = std::max(mtime_, mtime);
-  }
+  // A file or directory that happens to carry the alias's name does not hide
+  // the files behind the alias: the newest of them all counts.
+  mtime_ = std::max(mtime_, mtime);
 }
 
 bool DependencyScan::RecomputeDirty(Node* initial_node,
